@@ -99,7 +99,13 @@ fn part1() -> u64 {
                         };
                         for min_len in [0usize, 1, 64, 128, 256, 512, 513] {
                             cases += 1;
-                            let got = rsa_exponent_modulus(&dnskey, min_len);
+                            // "no malformed key makes the validator panic": a panic inside the library is a finding, not a crash of the search
+                            let got = match std::panic::catch_unwind(std::panic::AssertUnwindSafe(|| rsa_exponent_modulus(&dnskey, min_len))) {
+                                Ok(g) => g,
+                                Err(_) => fail(format!(
+                                    "rsa_exponent_modulus panics on a key field of {} octets (exponent length {} in {} octet(s), modulus of {} octets, cut {}), minimum modulus {}: {:02x?}",
+                                    key.len(), el, if three_octet_len { 3 } else { 1 }, nl, cut, min_len, &key[..key.len().min(12)])),
+                            };
                             let Some(want) = reference(&key, min_len) else { continue };
                             let agree = match (&got, &want) {
                                 (Ok((ge, gn)), Ok((we, wn))) => ge == we && gn == wn,
